@@ -16,7 +16,7 @@ ROLE-RADII   at every metre<->degree conversion the radius paired with lat/north
 """
 import ast
 
-from ..expr import SymEval, SArray, Unsupported, Opaque
+from ..expr import SymEval, SArray, Unsupported, Opaque, wrap_atoms as _wrap_atoms, strip_wraps as _strip_wraps
 from ..model import AnalysisError, norm_text
 from ..nf import Alg, Rat
 from ..rotmodel import RotHooks
@@ -102,6 +102,11 @@ def geo_perturb(ctx):
     except Unsupported as e:
         raise AnalysisError('perturb_lla not analysable: %s' % e)
     ctx.touch(pl)
+    lla2_raw = lla2
+    # ECEF position is 360-periodic in longitude: a reduction of the longitude output does not
+    # move the point (its consistency with the difference maps is GEO-ROUNDTRIP below)
+    lla2 = SArray((3,), dict(lla2.entries))
+    lla2.entries[(1,)] = _strip_wraps(A, lla2.get((1,)))
     dl = [_first_order(A, lla2.get((k,))) for k in range(3)]
     zero = all(A.eq(A.subst(lla2.get((k,)), {'@e': A.const(0)}), g['lla'].get((k,)))
                for k in range(3))
@@ -134,6 +139,31 @@ def geo_perturb(ctx):
            'equal points', f=cd, key='lla-diff',
            why='compute_lla_difference does not return the displacement in NED metres of '
                'mat_en_from_ll to first order (or is non-zero for equal points)')
+    # compute_lla_difference(perturb_lla(lla, e*d), lla) == e*d : the two maps are inverse to
+    # each other to first order - including the treatment of the longitude range
+    ctx.rule('GEO-ROUNDTRIP', 'compute_lla_difference(perturb_lla(lla, d), lla) == d to first order '
+             'for every longitude (a modulo-360 reduction applied by one of the two maps is '
+             'undone or shared by the other)')
+    try:
+        back = ev.call_function(cd, [lla2_raw, g['lla']])
+    except Unsupported as e:
+        raise AnalysisError('compute_lla_difference(perturb_lla(...)) not analysable: %s' % e)
+    left = sorted({a for k in range(3) for a in _wrap_atoms(A, back.get((k,)))})
+    if left:
+        ctx.ob('GEO-ROUNDTRIP', False, None, 'difference of a perturbed point', f=pl,
+               node=pl.node, key='roundtrip',
+               why='the longitude is reduced modulo 360 by one of perturb_lla / '
+                   'compute_lla_difference but not by the other (%s survives in the difference '
+                   'of a perturbed point and the point itself): next to the +-180 meridian the '
+                   'metre-difference of a perturbation is off by 360 degrees of longitude'
+                   % left[0][:80])
+    else:
+        ok = all(A.eq(_first_order(A, back.get((k,))), d.get((k,))) for k in range(3)) and all(
+            A.is_zero(A.subst(back.get((k,)), {'@e': A.const(0)})) for k in range(3))
+        ctx.ob('GEO-ROUNDTRIP', ok, None, 'compute_lla_difference(perturb_lla(lla, d), lla) == d '
+               'to first order', f=pl, node=pl.node, key='roundtrip',
+               why='compute_lla_difference does not recover the metre perturbation applied by '
+                   'perturb_lla (to first order)')
     # lla_to_ned(lla + e*D, origin=lla)
     ln = repo.function('transform.lla_to_ned')
     try:
@@ -600,3 +630,97 @@ def ev_rat(A, v):
     if not isinstance(v, Rat):
         raise AnalysisError('scalar expected, got %r' % (v,))
     return v
+
+
+# ---------------------------------------------------------------- constants the rest relies on
+#: WGS-84 defining / derived constants (NIMA TR8350.2): value, relative tolerance
+_WGS84 = {
+    'A': (6378137.0, 1e-12),
+    'E2': (2 / 298.257223563 - (1 / 298.257223563) ** 2, 1e-10),
+    'GE': (9.7803253359, 1e-10),
+    'GP': (9.8321849378, 1e-10),
+    'RATE': (7.292115e-5, 1e-9),
+}
+
+
+def _const_node(ctx, fq):
+    t = ctx.repo.lookup(fq)
+    if not (isinstance(t, tuple) and t[0] == 'const'):
+        raise AnalysisError('constant %s not found' % fq)
+    return t[1], t[2]
+
+
+def wgs_const(ctx):
+    """The symbolic rules treat earth.A, E2, GE, GP, RATE, F and transform.DEG_TO_RAD /
+    RAD_TO_DEG as opaque symbols; their VALUES are the remaining part of 'the closed-form
+    WGS-84 ellipsoid' and of the degree convention, checked here."""
+    import math
+    ctx.rule('WGS-CONST', 'earth.A, E2, GE, GP, RATE have the WGS-84 values')
+    ctx.rule('GRAV-ENDS', 'the normal-gravity formula returns GE at the equator and GP at the '
+             'poles at zero altitude (with the defining expression of earth.F substituted)')
+    repo = ctx.repo
+    for name, (want, tol) in sorted(_WGS84.items()):
+        owner, node = _const_node(ctx, 'pyins.earth.' + name)
+        got = repo.const('earth.' + name)
+        ctx.need(isinstance(got, (int, float)), 'earth.%s is not a number' % name)
+        ctx.ob('WGS-CONST', abs(float(got) - want) <= tol * abs(want), owner.relpath,
+               'earth.%s = %r (WGS-84: %.13g)' % (name, got, want),
+               node=node, key='wgs-' + name,
+               why='earth.%s = %r differs from the WGS-84 value %.13g: conversions no longer '
+                   'describe the WGS-84 ellipsoid / its normal gravity' % (name, got, want))
+    unit_const(ctx)
+    _grav_ends(ctx)
+
+
+def unit_const(ctx):
+    import math
+    ctx.rule('UNIT-CONST', 'transform.DEG_TO_RAD == pi / 180 and RAD_TO_DEG * DEG_TO_RAD == 1 '
+             '(the symbolic rules identify them with the exact conversion factors)')
+    repo = ctx.repo
+    d2r = repo.const('transform.DEG_TO_RAD')
+    r2d = repo.const('transform.RAD_TO_DEG')
+    owner, node = _const_node(ctx, 'pyins.transform.DEG_TO_RAD')
+    ctx.ob('UNIT-CONST', abs(float(d2r) - math.pi / 180) <= 4e-16 * math.pi / 180, owner.relpath,
+           'transform.DEG_TO_RAD = %r == pi / 180' % d2r, node=node,
+           key='d2r', why='transform.DEG_TO_RAD = %r is not pi / 180' % d2r)
+    owner, node = _const_node(ctx, 'pyins.transform.RAD_TO_DEG')
+    ctx.ob('UNIT-CONST', abs(float(r2d) * float(d2r) - 1) <= 1e-15, owner.relpath,
+           'transform.RAD_TO_DEG * DEG_TO_RAD = %r == 1' % (float(r2d) * float(d2r)),
+           node=node, key='r2d',
+           why='transform.RAD_TO_DEG = %r is not the reciprocal of DEG_TO_RAD' % r2d)
+
+
+def _grav_ends(ctx):
+    # gravity at the ends of the latitude range
+    repo = ctx.repo
+    ev = SymEval(repo)
+    A = ev.A
+    f = repo.function('earth.gravity')
+    ctx.touch(f)
+    owner, fnode = _const_node(ctx, 'pyins.earth.F')
+
+    class _Scope:
+        module = owner
+        cls = None
+        name = '<module>'
+    save = getattr(ev, 'cur', None)
+    ev.cur = _Scope()
+    try:
+        Fd = ev.rat(ev.eval(fnode, {}))
+    except Unsupported as e:
+        raise AnalysisError('defining expression of earth.F not analysable: %s' % e)
+    finally:
+        ev.cur = save
+    for lat, want, txt in ((0, 'earth.GE', 'equator'), (90, 'earth.GP', 'north pole'),
+                           (-90, 'earth.GP', 'south pole')):
+        try:
+            g = ev.call_function(f, [A.const(lat), A.const(0)])
+        except Unsupported as e:
+            raise AnalysisError('earth.gravity not analysable: %s' % e)
+        ctx.need(isinstance(g, Rat), 'earth.gravity(%d, 0) is not a scalar' % lat)
+        g = A.subst(g, {'earth.F': Fd})
+        ctx.ob('GRAV-ENDS', A.eq(g, A.sym(want)), owner.relpath,
+               'gravity(%d, 0) == %s' % (lat, want),
+               node=fnode if lat else f.node, key='grav-%d' % lat,
+               why='normal gravity at the %s (zero altitude) is %s instead of %s: the Somigliana '
+                   'constant earth.F or the formula is wrong' % (txt, A.key(g)[:120], want))
